@@ -73,7 +73,7 @@ var Module = &starlarkstruct.Module{
 		"mod":       newBinaryBuiltin("mod", math.Mod),
 		"pow":       newBinaryBuiltin("pow", math.Pow),
 		"remainder": newBinaryBuiltin("remainder", math.Remainder),
-		"round":     newUnaryBuiltin("round", math.Round),
+		"round":     starlark.NewBuiltin("round", round),
 
 		"exp":  newUnaryBuiltin("exp", math.Exp),
 		"sqrt": newUnaryBuiltin("sqrt", math.Sqrt),
@@ -112,7 +112,11 @@ type floatOrInt float64
 func (p *floatOrInt) Unpack(v starlark.Value) error {
 	switch v := v.(type) {
 	case starlark.Int:
-		*p = floatOrInt(v.Float())
+		f := v.Float()
+		if math.IsInf(float64(f), 0) {
+			return errors.New("int too large to convert to float")
+		}
+		*p = floatOrInt(f)
 		return nil
 	case starlark.Float:
 		*p = floatOrInt(v)
@@ -176,6 +180,20 @@ func ceil(thread *starlark.Thread, _ *starlark.Builtin, args starlark.Tuple, kwa
 		return starlark.NumberToInt(starlark.Float(math.Ceil(float64(t))))
 	}
 
+	return nil, fmt.Errorf("got %s, want float or int", x.Type())
+}
+
+func round(thread *starlark.Thread, _ *starlark.Builtin, args starlark.Tuple, kwargs []starlark.Tuple) (starlark.Value, error) {
+	var x starlark.Value
+	if err := starlark.UnpackPositionalArgs("round", args, kwargs, 1, &x); err != nil {
+		return nil, err
+	}
+	switch t := x.(type) {
+	case starlark.Int:
+		return t, nil // already an integer; converting to float would round it
+	case starlark.Float:
+		return starlark.Float(math.Round(float64(t))), nil
+	}
 	return nil, fmt.Errorf("got %s, want float or int", x.Type())
 }
 
